@@ -135,6 +135,8 @@ def enumerate_cases(tier):
                                 continue
                             out.append({"variant": v, "seed": s, "method": method, "max_nfev": max_nfev, "k": k, "n": n, "per_eval": per_eval,
                                         "kind": kind, "verbose": verbose, "raise_exception": rexc})
+                            if kind == "raise_at" and not verbose and (tier != "quick" or k % 2 == 0):
+                                out.append(dict(out[-1], text=["empty", "multi", "leading_break"][(k // 2 + len(out)) % 3]))
                 # persistent region fault
                 for below in (0.39, 0.3):
                     for rexc in (False, True):
@@ -158,7 +160,11 @@ def prop(c):
         c = dict(c, n=ff["count"], per_eval=sum(len(d["megacomplex"]) for d in case["datasets"]))
         c["k"] = 1 + int(c["k_frac"] * (c["n"] - 1))
         c.setdefault("variant", "random")
-    marker = Marker(f"injected fault at evaluation {c['k']}")
+    # the text of the error: one line, none at all (bare ``raise ValueError``), several lines (issue lists), leading line break
+    text_kind = c.get("text", "line")
+    marker = Marker(*{"line": [f"injected fault at evaluation {c['k']}"], "empty": [],
+                      "multi": [f"injected fault at evaluation {c['k']}:\n * first issue\n * second issue"],
+                      "leading_break": [f"\ninjected fault at evaluation {c['k']}"]}[text_kind])
     plan = {"kind": c["kind"], "k": c["k"]}
     if c["kind"] == "raise_at":
         plan["exc_obj"] = marker
@@ -170,6 +176,8 @@ def prop(c):
     first = c["kind"] != "raise_region" and k <= pe
     phase = "post_fit" if post_fit else ("first_evaluation" if first else "during_least_squares")
     tags = [c["kind"], c["method"], phase, f"variant{c['variant']}", "verbose" if c["verbose"] else "quiet", "raise" if c["raise_exception"] else "contain"]
+    if c["kind"] == "raise_at":
+        tags.append(f"error_text_{text_kind}")
     fired = any(not e["ok"] for e in r["log"])
     if not fired:
         tags.append("fault_not_reached")
@@ -335,6 +343,7 @@ def random_fault_cases():
         kind = draw(st.sampled_from(["raise_at", "raise_at", "nan_at", "inf_at"]))
         method = draw(st.sampled_from(METHODS if kind == "raise_at" else [m for m in METHODS if m != "Dogbox"]))
         return {"scheme": scheme, "method": method, "max_nfev": draw(st.integers(2, 5)), "kind": kind,
+                "text": draw(st.sampled_from(["line", "line", "empty", "multi", "leading_break"])),
                 "k_frac": draw(st.floats(0, 1)), "verbose": draw(st.integers(0, 3)) == 0,
                 "raise_exception": draw(st.booleans()) if kind == "raise_at" else False}
 
